@@ -989,6 +989,17 @@ def main():
     if len(sys.argv) > 1 and sys.argv[1] == "--json":
         print(json.dumps(extract(repo), indent=1, default=str))
         return
+    if len(sys.argv) > 1 and sys.argv[1] == "--unused":
+        gmap = {k: v for k, v in json.loads(MAP_FILE.read_text()).items() if not k.startswith("_")}
+        used = set()
+        for c in extract(repo)["guards"]:
+            for g in c["guards"]:
+                k1 = g["func"] + "|" + g["cond"]
+                used.add(k1 if k1 in gmap else g["cond"])
+        for k in gmap:
+            if k not in used:
+                print("unused guards_map.json key:", json.dumps(k))
+        return
     if len(sys.argv) > 1 and sys.argv[1] == "--conds":
         seen = {}
         for c in extract(repo)["guards"]:
